@@ -35,13 +35,13 @@ PROPS = {
         'text': ('Bounded model checking of the real ZXController bus primitives: one memory cycle / internal T-state run / port read / '
                  'port write from every frame T-state, every address or port, both machines and every reachable paging latch, elapsed '
                  'time compared with the closed contention formula and the four ULA port patterns of the statement.'),
-        'note': COMMON_NOTE + 'Composition to whole instructions relies on C03 (the CPU issues exactly the documented primitives). Screen rendering is stubbed out.',
+        'note': COMMON_NOTE + 'Whole-instruction timing = the documented bus cycles (the C01/C03 page harnesses of the real CPU, which also run under this check) composed with the per-cycle ULA delays checked here; the composition itself is an argument, not a query. Screen rendering is stubbed out.',
     },
     'C05': {
         'text': ('Bounded model checking of the real timing constants (builder chain), the INT line predicate for every frame T-state, one '
                  'clock step from any time (conservation invariant, inductive) and the real Emulator::emulate_frames loop with the CPU '
                  'abstracted to symbolic instruction lengths (<= 4 steps quick / 6 thorough).'),
-        'note': COMMON_NOTE + '"Interrupted exactly once per frame" for arbitrary programs follows from these plus C02, it is not run as a whole frame.',
+        'note': COMMON_NOTE + '"Interrupted exactly once per frame" for arbitrary programs follows from these plus the interrupt-sampling harnesses of the real CPU (c02_step_*/c02_seq_*, which also run under this check); it is not run as a whole frame.',
     },
     'C06': {
         'text': ('Bounded model checking of the real paging path: any 3 port writes (symbolic ports and data) against a ghost latch, '
